@@ -7,6 +7,8 @@ from . import pe
 class StrPE(pe.PE):
     @staticmethod
     def _at(p, k):
+        if k == 0:
+            return p
         path = list(p[2])
         if path and isinstance(path[-1], tuple) and path[-1][0] == "i" and isinstance(path[-1][1], int):
             path[-1] = ("i", path[-1][1] + k)
